@@ -1,2 +1,3 @@
 import LC.Props.C20Heap
 import LC.Props.C20Sets
+import LC.Props.C20SetsAlgebra
